@@ -283,6 +283,11 @@ def rule_ranges_all(ctx, M):
             pr = P.Prov(callee)
             r = pr.local(0)
             ok = False
+            if r[0] == "agg" and r[1].startswith("adt:") and len(r[2]) == 1 and callee.arg_count == 0:
+                # the two bounds in one `Range<usize>` field (half-open): (0..len)
+                inner = P.strip(r[2][0])
+                if inner[0] == "agg" and inner[1].endswith("Range::Range") and len(inner[2]) == 2:
+                    r = ("agg", r[1], (inner[2][0], inner[2][1]))
             if r[0] == "agg" and r[1].startswith("adt:") and len(r[2]) in (2, 3) and callee.arg_count == 0:
                 # (start, end, inclusive=false) or the half-open representation (start, end)
                 start, end = r[2][0], r[2][1]
